@@ -6,8 +6,10 @@
 
     With  [true_partial rho e v d := is_derive (fun t => denote (upd rho v t) e) (rho v) d]
     and writing  va := denote rho a,  vb := denote rho b,  the file proves
-    (all lemmas take [rho v] and the sub-expressions as leading implicit-by-unification
-    arguments; premises are in the order shown):
+    (every tp_* lemma takes [rho v] first, then the sub-expressions / numbers, all as EXPLICIT
+    arguments, e.g. [tp_add rho v l ds], [tp_divide rho v a b da db]; use [apply tp_xxx] and let
+    unification fill them in; premises are in the order shown; import with
+    [From SM.proofs Require Import DerivLemmas]):
 
     - [denote_ext_local]  : (forall x, In x (vars e) -> rho x = rho' x) -> denote rho e = denote rho' e
     - [denote_upd_same]   : denote (upd rho v (rho v)) e = denote rho e
